@@ -205,7 +205,19 @@ def states(tier, seed):
 
 
 def _states_deep(seed):
-    return []
+    """more schemes / flavours / Q2 (incl. FFNS5, FONLL), all PTO 3 cells, every grid of the alphabet, longer multi-n_f runners."""
+    out = []
+    for k, h, p, sc, pto, q2 in itertools.product(["F2", "FL", "F3", "g1", "gL", "g4"], ["light", "total", "charm", "bottom"], ["EM", "NC", "CC"], ["ZM-VFNS", "FFNS3", "FFNS4", "FFNS5", "FFN03", "FONLL-FFNS4", "FONLL-FFN03"], [1, 2], [2.0, 10.0, 300.0]):
+        if pto == 2 and sc in ("FFN03", "FONLL-FFN03") and h in ("total", "charm", "bottom") and q2 != 300.0:
+            continue  # slow asymptotic towers: one Q2
+        out.append({"t": "cell", "kind": k, "heavyness": h, "process": p, "scheme": sc, "pto": pto, "Q2": q2})
+    for k, h, p, sc, q2 in itertools.product(["F2", "FL", "F3"], ["light", "total"], ["EM", "NC", "CC"], ["ZM-VFNS", "FFNS3", "FFNS4"], [2.0, 10.0, 300.0]):
+        out.append({"t": "cell", "kind": k, "heavyness": h, "process": p, "scheme": sc, "pto": 3, "Q2": q2})
+    for g, k, p, pto in itertools.product(["L7", "G9", "D5", "G13", "G8", "D1", "U7", "UL6"], ["F2", "FL", "F3", "g1"], ["NC", "CC"], [1, 2]):
+        out.append({"t": "cell", "kind": k, "heavyness": "total", "process": p, "scheme": "ZM-VFNS", "pto": pto, "Q2": 30.0, "grid": g})
+    for proc, pto, obs, q2s in [("NC", 2, ["F2_total", "FL_total", "F3_total", "g1_total"], [2.0, 1e5, 10.0, 30.0, 2.0]), ("CC", 2, ["F2_total", "F3_light", "FL_total"], [1e5, 30.0, 10.0, 2.0]), ("EM", 3, ["F2_light", "FL_light"], [2.0, 30.0, 10.0]), ("NC", 1, ["g1_total", "gL_total", "g4_total", "F2_total"], [30.0, 2.0, 1e5, 10.0])]:
+        out.append({"t": "multi", "process": proc, "scheme": "ZM-VFNS", "pto": pto, "obs": obs, "Q2s": q2s})
+    return out
 
 
 def execute(st):
